@@ -170,7 +170,15 @@ func runC10(c *vlib.HistCase, stats *vlib.Stats) (bool, []string, error) {
 	}
 	defer closer()
 	_, h := newHandler(e, w, rate.Limit(1e9))
-	t := bastionTarget{e: e, h: h, w: w}
+	return runC10On(e, bastionTarget{e: e, h: h, w: w}, stats)
+}
+
+// runC10On plays the case against any target that answers over HTTP and applies the
+// C10 oracle.
+func runC10On(e *vlib.Env, t vlib.Target, stats *vlib.Stats) (bool, []string, error) {
+	c := e.Case
+	_ = c
+	var err error
 	wk := witnessCosigKey(e)
 	nontrivial := false
 	var classes []string
